@@ -1,14 +1,16 @@
 (* Model of x/evmutil/keeper: conversion_evm_native.go, conversion_evm_native_bep3.go,
    conversion_cosmos_native.go, erc20.go (GetOrDeployCosmosCoinERC20Contract,
-   MintERC20, BurnERC20), params.go (allow lists), msg_server.go + types/msg.go
-   (ValidateBasic), over an abstract x/bank and the abstract ERC20 ledgers of
-   Model/Erc20.v.  Definitions only.
+   MintERC20, BurnERC20), evm.go (monitorApprovalEvent), params.go (lookups in the
+   parameter lists), types/conversion_pair.go (the validators of the parameter-change
+   path), msg_server.go + types/msg.go (ValidateBasic), over an abstract x/bank and the
+   abstract ERC20 ledgers of Model/Erc20.v.  Definitions only.
 
    Accounts are numbered; an account's sdk address and its EVM address are the
-   same 20 bytes (as for types.ModuleEVMAddress), so one index names both.
-   Contracts are numbered in order of deployment: 0 .. npair-1 is the universe
-   of EVM-native pair contracts (enabled or not at a given moment), the
-   module-deployed wrappers of cosmos coins get next, next+1, ... *)
+   same 20 bytes (as for types.ModuleEVMAddress), so one index names both; one
+   index is the zero address.  Contracts are numbered in order of deployment:
+   0 .. npair-1 is the table of EVM-native pair contracts governance chooses from,
+   the module-deployed wrappers of cosmos coins get next, next+1, ...; a number
+   >= next is an address without code. *)
 From Kava Require Import Base.Prelude Model.Erc20.
 
 Definition K10 : Z := 10000000000.     (* bep3ConversionFactor = 10^10 *)
@@ -17,11 +19,16 @@ Record env := {
   nacc : nat;                  (* accounts observed by the harness: 0 .. nacc-1 *)
   ndenom : nat;                (* denoms observed by the harness: 0 .. ndenom-1 *)
   macc : nat;                  (* the evmutil module account / types.ModuleEVMAddress *)
+  zacc : nat;                  (* the zero address 0x000..0 *)
   blocked : nat -> bool;       (* bank BlockedAddr *)
-  npair : nat;                 (* pair contracts are 0 .. npair-1 *)
-  pair_denom : nat -> nat;     (* ConversionPair.Denom of pair contract c *)
+  npair : nat;                 (* table of pair contracts: 0 .. npair-1 *)
+  pair_denom : nat -> nat;     (* the sdk denom governance pairs table contract c with *)
+  pkind : nat -> ckind;        (* bytecode of table contract c *)
   is_bep3 : nat -> bool        (* isBep3Asset(denom) *)
 }.
+
+(* wrappers are deployed by the module from the compiled ERC20KavaWrappedCosmosCoin *)
+Definition kind (e : env) (c : nat) : ckind := if Nat.ltb c (npair e) then pkind e c else Oz.
 
 Record state := mkState {
   bal : nat -> nat -> Z;       (* x/bank balance: account, denom *)
@@ -29,16 +36,16 @@ Record state := mkState {
   erc : nat -> ledger;         (* EVM state of each ERC20 contract *)
   reg : nat -> option nat;     (* store DeployedCosmosCoinContractKeyPrefix: cosmos denom -> contract *)
   next : nat;                  (* number of deployed contracts = id of the next one *)
-  enabled : nat -> bool;       (* params.EnabledConversionPairs, as a subset of the pair universe *)
+  pairs : list (nat * nat);    (* params.EnabledConversionPairs: (contract, denom), in order *)
   allowed : nat -> bool        (* params.AllowedCosmosDenoms *)
 }.
 
 Definition set_bal (s : state) (a d : nat) (v : Z) : state :=
-  mkState (upd2 (bal s) a d v) (sup s) (erc s) (reg s) (next s) (enabled s) (allowed s).
+  mkState (upd2 (bal s) a d v) (sup s) (erc s) (reg s) (next s) (pairs s) (allowed s).
 Definition set_sup (s : state) (d : nat) (v : Z) : state :=
-  mkState (bal s) (upd (sup s) d v) (erc s) (reg s) (next s) (enabled s) (allowed s).
+  mkState (bal s) (upd (sup s) d v) (erc s) (reg s) (next s) (pairs s) (allowed s).
 Definition set_erc (s : state) (c : nat) (l : ledger) : state :=
-  mkState (bal s) (sup s) (upd (erc s) c l) (reg s) (next s) (enabled s) (allowed s).
+  mkState (bal s) (sup s) (upd (erc s) c l) (reg s) (next s) (pairs s) (allowed s).
 
 (** * x/bank (modelled, not verified) — single-coin forms of the calls the keeper makes.
     sdk.NewCoins drops a zero coin, so every call with amount 0 is a call with
@@ -68,22 +75,37 @@ Definition bank_burn (e : env) (s : state) (d : nat) (x : Z) : option state :=
   if x <=? bal s m d then Some (set_sup (set_bal s m d (bal s m d - x)) d (sup s d - x))
   else None.
 
+(** * ERC20 calls, by the bytecode of the contract *)
+
+Definition tok_transfer (e : env) (c : nat) (l : ledger) (f t : nat) (x : Z) : option ledger :=
+  match kind e c with
+  | Oz => erc_transfer (zacc e) l f t x
+  | Refund => rf_transfer l f t x
+  end.
+
+(* does a successful transfer() of this contract log Approval(address,address,uint256)? *)
+Definition emits_approval (e : env) (c : nat) : bool :=
+  match kind e c with Oz => false | Refund => true end.
+
 (** * EVM-native pairs: conversion_evm_native.go, conversion_evm_native_bep3.go *)
 
 Definition kf (e : env) (d : nat) : Z := if is_bep3 e d then K10 else 1.
 
 (* params.go GetEnabledConversionPairFromDenom: first enabled pair with that denom *)
-Definition pair_of_denom (e : env) (s : state) (d : nat) : option nat :=
-  find (fun c => enabled s c && Nat.eqb (pair_denom e c) d) (seq 0 (npair e)).
+Definition pair_of_denom (s : state) (d : nat) : option nat :=
+  match find (fun p => Nat.eqb (snd p) d) (pairs s) with Some p => Some (fst p) | None => None end.
 
-(* params.go GetEnabledConversionPairFromERC20Address *)
-Definition pair_enabled (e : env) (s : state) (c : nat) : bool :=
-  Nat.ltb c (npair e) && enabled s c.
+(* params.go GetEnabledConversionPairFromERC20Address: first enabled pair with that address *)
+Definition pair_of_ctr (s : state) (c : nat) : option nat :=
+  match find (fun p => Nat.eqb (fst p) c) (pairs s) with Some p => Some (snd p) | None => None end.
+
+Definition enabled (s : state) (c : nat) : bool :=
+  match pair_of_ctr s c with Some _ => true | None => false end.
 
 (* ConvertCoinToERC20: BurnConversionPairCoin, then UnlockERC20Tokens with its
-   balance-delta check on the receiver. *)
+   balance-delta check on the receiver and the Approval-event check. *)
 Definition conv_coin_to_erc20 (e : env) (s : state) (i r d : nat) (x : Z) : outcome state unit :=
-  match pair_of_denom e s d with
+  match pair_of_denom s d with
   | None => Err
   | Some c =>
     match bank_send s i (macc e) d x with
@@ -93,36 +115,45 @@ Definition conv_coin_to_erc20 (e : env) (s : state) (i r d : nat) (x : Z) : outc
       | None => Err
       | Some s2 =>
         let unlock := if is_bep3 e d then x * K10 else x in
+        (* balanceOf of an address without code returns nothing: the query fails *)
+        if Nat.leb (next s2) c then Err else
         let l := erc s2 c in
         let start := ebal l r in
-        match erc_transfer l (macc e) r unlock with
+        match tok_transfer e c l (macc e) r unlock with
         | None => Err
         | Some l1 =>
-          if start + unlock =? ebal l1 r then Ok (set_erc s2 c l1) tt else Err
+          if negb (start + unlock =? ebal l1 r) then Err else
+          if emits_approval e c then Err else
+          Ok (set_erc s2 c l1) tt
         end
       end
     end
   end.
 
 (* ConvertERC20ToCoin: bep3ERC20AmountToCoinMintAndERC20LockAmount, LockERC20Tokens
-   with its balance-delta check on the initiator, MintConversionPairCoin. *)
+   with its balance-delta check on the initiator and the Approval-event check,
+   MintConversionPairCoin. *)
 Definition conv_erc20_to_coin (e : env) (s : state) (i r c : nat) (x : Z) : outcome state unit :=
-  if negb (pair_enabled e s c) then Err else
-  let d := pair_denom e c in
-  let mint := if is_bep3 e d then x / K10 else x in
-  let lock := if is_bep3 e d then (x / K10) * K10 else x in
-  if is_bep3 e d && (mint =? 0) then Err else
-  let l := erc s c in
-  let start := ebal l i in
-  match erc_transfer l i (macc e) lock with
+  match pair_of_ctr s c with
   | None => Err
-  | Some l1 =>
-    if negb (start - lock =? ebal l1 i) then Err else
-    let s1 := set_erc s c l1 in
-    let s2 := bank_mint e s1 d mint in
-    match send_mod_to_acc e s2 r d mint with
+  | Some d =>
+    let mint := if is_bep3 e d then x / K10 else x in
+    let lock := if is_bep3 e d then (x / K10) * K10 else x in
+    if is_bep3 e d && (mint =? 0) then Err else
+    if Nat.leb (next s) c then Err else
+    let l := erc s c in
+    let start := ebal l i in
+    match tok_transfer e c l i (macc e) lock with
     | None => Err
-    | Some s3 => Ok s3 tt
+    | Some l1 =>
+      if negb (start - lock =? ebal l1 i) then Err else
+      if emits_approval e c then Err else
+      let s1 := set_erc s c l1 in
+      let s2 := bank_mint e s1 d mint in
+      match send_mod_to_acc e s2 r d mint with
+      | None => Err
+      | Some s3 => Ok s3 tt
+      end
     end
   end.
 
@@ -131,7 +162,7 @@ Definition conv_erc20_to_coin (e : env) (s : state) (i r c : nat) (x : Z) : outc
 (* DeployKavaWrappedCosmosCoinERC20Contract + SetDeployedCosmosCoinContract *)
 Definition deploy (s : state) (d : nat) : state :=
   mkState (bal s) (sup s) (upd (erc s) (next s) empty_ledger)
-          (upd (reg s) d (Some (next s))) (S (next s)) (enabled s) (allowed s).
+          (upd (reg s) d (Some (next s))) (S (next s)) (pairs s) (allowed s).
 
 (* ConvertCosmosCoinToERC20 *)
 Definition conv_cosmos_to_erc20 (e : env) (s : state) (i r d : nat) (x : Z) : outcome state unit :=
@@ -141,7 +172,7 @@ Definition conv_cosmos_to_erc20 (e : env) (s : state) (i r d : nat) (x : Z) : ou
   | Some s1 =>
     let s2 := match reg s1 d with Some _ => s1 | None => deploy s1 d end in
     let c := match reg s1 d with Some c => c | None => next s1 end in
-    match erc_mint (erc s2 c) r x with
+    match erc_mint (zacc e) (erc s2 c) r x with
     | None => Err
     | Some l1 => Ok (set_erc s2 c l1) tt
     end
@@ -154,7 +185,7 @@ Definition conv_cosmos_from_erc20 (e : env) (s : state) (i r d : nat) (x : Z) : 
   | Some c =>
     let l := erc s c in
     if ebal l i <? x then Err else
-    match erc_burn l i x with
+    match erc_burn (zacc e) l i x with
     | None => Err
     | Some l1 =>
       match send_mod_to_acc e (set_erc s c l1) r d x with
@@ -163,6 +194,86 @@ Definition conv_cosmos_from_erc20 (e : env) (s : state) (i r d : nat) (x : Z) : 
       end
     end
   end.
+
+(** * Parameter changes: the values a proposal carries and the validators of
+      types/conversion_pair.go (ParamSetPairs: validateConversionPairs,
+      validateAllowedCosmosCoinERC20Tokens) *)
+
+Inductive paddr :=
+| ACtr (c : nat)        (* the 20-byte address of contract c (or of no code, c >= next) *)
+| AZero                 (* 20 zero bytes *)
+| ABadLen.              (* a byte string whose length is not 20 *)
+
+Record praw := mkPraw {
+  p_addr : paddr;
+  p_denom : option nat   (* None: a string sdk.ValidateDenom refuses *)
+}.
+
+Record traw := mkTraw {
+  t_denom : option nat;  (* None: a string sdk.ValidateDenom refuses *)
+  t_name_ok : bool;      (* name not empty *)
+  t_sym : option nat;    (* None: empty symbol; Some k: symbol number k *)
+  t_dec_ok : bool        (* decimals <= 255 *)
+}.
+
+(* ConversionPair.Validate *)
+Definition decode_pair (p : praw) : option (nat * nat) :=
+  match p_addr p, p_denom p with
+  | ACtr c, Some d => Some (c, d)
+  | _, _ => None
+  end.
+
+Fixpoint decode_pairs (ps : list praw) : option (list (nat * nat)) :=
+  match ps with
+  | [] => Some []
+  | p :: r =>
+      match decode_pair p, decode_pairs r with
+      | Some q, Some l => Some (q :: l)
+      | _, _ => None
+      end
+  end.
+
+Fixpoint nodupb (l : list nat) : bool :=
+  match l with
+  | [] => true
+  | x :: r => negb (existsb (Nat.eqb x) r) && nodupb r
+  end.
+
+(* ConversionPairs.Validate: every pair valid, no address twice, no denom twice *)
+Definition pairs_nodupb (l : list (nat * nat)) : bool :=
+  nodupb (map fst l) && nodupb (map snd l).
+
+Definition valid_pairs (ps : list praw) : option (list (nat * nat)) :=
+  match decode_pairs ps with
+  | Some l => if pairs_nodupb l then Some l else None
+  | None => None
+  end.
+
+(* AllowedCosmosCoinERC20Token.Validate *)
+Definition decode_tok (t : traw) : option (nat * nat) :=
+  match t_denom t, t_sym t with
+  | Some d, Some k => if t_name_ok t && t_dec_ok t then Some (d, k) else None
+  | _, _ => None
+  end.
+
+Fixpoint decode_toks (ts : list traw) : option (list (nat * nat)) :=
+  match ts with
+  | [] => Some []
+  | t :: r =>
+      match decode_tok t, decode_toks r with
+      | Some q, Some l => Some (q :: l)
+      | _, _ => None
+      end
+  end.
+
+(* AllowedCosmosCoinERC20Tokens.Validate: every token valid, no denom twice, no symbol twice *)
+Definition valid_toks (ts : list traw) : option (list nat) :=
+  match decode_toks ts with
+  | Some l => if pairs_nodupb l then Some (map fst l) else None
+  | None => None
+  end.
+
+Definition memb (l : list nat) (d : nat) : bool := existsb (Nat.eqb d) l.
 
 (** * Operations of a history *)
 
@@ -173,12 +284,14 @@ Inductive op :=
 | ConvERC20ToCoin (direct : bool) (i r c : nat) (x : Z)
 | ConvCosmosToERC20 (direct : bool) (i r d : nat) (x : Z)
 | ConvCosmosFromERC20 (direct : bool) (i r d : nat) (x : Z)
-(* the environment: ERC20 transfers by their holders, minting of an EVM-native
-   token by its owner, bank MsgSend, a governance parameter change *)
+(* the environment: ERC20 calls by holders / owners / spenders, bank MsgSend,
+   a governance parameter-change proposal *)
 | ErcTransfer (c f t : nat) (x : Z)
 | ErcMint (c t : nat) (x : Z)
 | BankSend (f t d : nat) (x : Z)
-| SetParams (en al : list bool).
+| SetParams (ps : list praw) (ts : list traw)
+| ErcApprove (c o sp : nat) (x : Z)
+| ErcTransferFrom (c sp f t : nat) (x : Z).
 
 (* amounts of the conversion messages are sdkmath.Int: below 2^256; ValidateBasic
    of the four messages refuses zero and negative amounts; direct keeper calls
@@ -186,8 +299,6 @@ Inductive op :=
    sdk.NewCoins panic and cannot come from a transaction) *)
 Definition amount_ok (direct : bool) (x : Z) : bool :=
   (if direct then 0 <=? x else 0 <? x) && (x <? U256).
-
-Definition nthB (l : list bool) (i : nat) : bool := nth i l false.
 
 Definition step (e : env) (s : state) (o : op) : outcome state unit :=
   match o with
@@ -202,7 +313,7 @@ Definition step (e : env) (s : state) (o : op) : outcome state unit :=
   | ErcTransfer c f t x =>
       (* a call to an address without code succeeds and does nothing *)
       if Nat.leb (next s) c then Ok s tt else
-      match erc_transfer (erc s c) f t x with
+      match tok_transfer e c (erc s c) f t x with
       | Some l => Ok (set_erc s c l) tt
       | None => Err
       end
@@ -210,26 +321,53 @@ Definition step (e : env) (s : state) (o : op) : outcome state unit :=
       if Nat.leb (next s) c then Ok s tt else
       (* the wrappers of cosmos coins are owned by the module: onlyOwner reverts *)
       if negb (Nat.ltb c (npair e)) then Err else
-      match erc_mint (erc s c) t x with
-      | Some l => Ok (set_erc s c l) tt
-      | None => Err
+      match kind e c with
+      | Oz => match erc_mint (zacc e) (erc s c) t x with
+              | Some l => Ok (set_erc s c l) tt
+              | None => Err
+              end
+      | Refund => Ok (set_erc s c (rf_mint (erc s c) t x)) tt
       end
   | BankSend f t d x =>
       (* bank MsgSend: ValidateBasic wants positive coins, the msg server refuses blocked recipients *)
       if x <=? 0 then Err else
       if blocked e t then Err else
       match bank_send s f t d x with Some s' => Ok s' tt | None => Err end
-  | SetParams en al =>
-      Ok (mkState (bal s) (sup s) (erc s) (reg s) (next s) (nthB en) (nthB al)) tt
+  | SetParams ps ts =>
+      (* x/params proposal handler: Subspace.Update of both keys, each validated *)
+      match valid_pairs ps, valid_toks ts with
+      | Some l, Some al => Ok (mkState (bal s) (sup s) (erc s) (reg s) (next s) l (memb al)) tt
+      | _, _ => Err
+      end
+  | ErcApprove c o sp x =>
+      if Nat.leb (next s) c then Ok s tt else
+      match kind e c with
+      | Oz => match erc_approve (zacc e) (erc s c) o sp x with
+              | Some l => Ok (set_erc s c l) tt
+              | None => Err
+              end
+      | Refund => Err      (* no such entry point: the dispatcher reverts *)
+      end
+  | ErcTransferFrom c sp f t x =>
+      if Nat.leb (next s) c then Ok s tt else
+      match (match kind e c with
+             | Oz => erc_transfer_from (zacc e) (erc s c) sp f t x
+             | Refund => rf_transfer_from (erc s c) sp f t x
+             end) with
+      | Some l => Ok (set_erc s c l) tt
+      | None => Err
+      end
   end.
 
-(* who authorises the operation (signature / msg.sender); module accounts have no key *)
+(* who authorises the operation (signature / msg.sender) *)
 Definition signer (o : op) : option nat :=
   match o with
   | ConvCoinToERC20 _ i _ _ _ | ConvERC20ToCoin _ i _ _ _
   | ConvCosmosToERC20 _ i _ _ _ | ConvCosmosFromERC20 _ i _ _ _ => Some i
   | ErcTransfer _ f _ _ => Some f
   | BankSend f _ _ _ => Some f
+  | ErcApprove _ o _ _ => Some o
+  | ErcTransferFrom _ sp _ _ _ => Some sp
   | ErcMint _ _ _ | SetParams _ _ => None
   end.
 
@@ -240,6 +378,26 @@ Definition step' (e : env) (s : state) (o : op) : state :=
 Definition run (e : env) (s : state) (ops : list op) : state :=
   fold_left (step' e) ops s.
 
+(** * Transactions: several messages executed on one cached context, which
+      baseapp commits only if every message succeeded *)
+
+Fixpoint tx_step (e : env) (s : state) (tx : list op) : outcome state unit :=
+  match tx with
+  | [] => Ok s tt
+  | o :: r =>
+      match step e s o with
+      | Ok s1 _ => tx_step e s1 r
+      | Err => Err
+      | Panic => Panic
+      end
+  end.
+
+Definition tx_step' (e : env) (s : state) (tx : list op) : state :=
+  match tx_step e s tx with Ok s' _ => s' | _ => s end.
+
+Definition run_txs (e : env) (s : state) (txs : list (list op)) : state :=
+  fold_left (tx_step' e) txs s.
+
 (** * Correspondence-check support: observations and comparison *)
 
 Inductive rclass := ROk | RErr | RPanic.
@@ -248,19 +406,22 @@ Definition rclass_eqb (a b : rclass) : bool :=
 Definition class_of {S O} (r : outcome S O) : rclass :=
   match r with Ok _ _ => ROk | Err => RErr | Panic => RPanic end.
 
-(* what the harness records after each operation: the result class and the
+(* what the harness records after each transaction: the result class and the
    changes of the implementation's observable state relative to the previous
-   observation: bank balances and supplies, ERC20 balanceOf of every observed
-   account and totalSupply for every deployed contract, the raw registry, the
-   number of deployed contracts. *)
+   observation: bank balances and supplies, ERC20 balanceOf and allowances of
+   every observed account and totalSupply for every deployed contract, the raw
+   registry, the number of deployed contracts, the parameters read back from the
+   keeper (when they changed). *)
 Record obs := mkObs {
   o_class : rclass;
-  o_dbal : list (nat * nat * Z);    (* (account, denom, new balance) *)
-  o_dsup : list (nat * Z);          (* (denom, new supply) *)
-  o_derc : list (nat * nat * Z);    (* (contract, account, new balanceOf) *)
-  o_dtot : list (nat * Z);          (* (contract, new totalSupply) *)
-  o_dreg : list (nat * nat);        (* (denom, contract) new registry entries *)
-  o_next : nat
+  o_dbal : list (nat * nat * Z);          (* (account, denom, new balance) *)
+  o_dsup : list (nat * Z);                (* (denom, new supply) *)
+  o_derc : list (nat * nat * Z);          (* (contract, account, new balanceOf) *)
+  o_dtot : list (nat * Z);                (* (contract, new totalSupply) *)
+  o_dall : list (nat * (nat * nat) * Z);  (* (contract, (owner, spender), new allowance) *)
+  o_dreg : list (nat * nat);              (* (denom, contract) new registry entries *)
+  o_next : nat;
+  o_params : option (list (nat * nat) * list nat)  (* enabled pairs, allowed denoms *)
 }.
 
 Definition reg_code (s : state) (d : nat) : Z :=
@@ -268,8 +429,12 @@ Definition reg_code (s : state) (d : nat) : Z :=
 
 Definition project (e : env) (s : state) : list (list Z) :=
   map (fun a => map (fun d => bal s a d) (seq 0 (ndenom e))) (seq 0 (nacc e))
-  ++ [map (sup s) (seq 0 (ndenom e)); map (reg_code s) (seq 0 (ndenom e)); [Z.of_nat (next s)]]
-  ++ map (fun c => etot (erc s c) :: map (ebal (erc s c)) (seq 0 (nacc e))) (seq 0 (next s)).
+  ++ [map (sup s) (seq 0 (ndenom e)); map (reg_code s) (seq 0 (ndenom e)); [Z.of_nat (next s)];
+      flat_map (fun p => [Z.of_nat (fst p); Z.of_nat (snd p)]) (pairs s);
+      map (fun d => if allowed s d then 1 else 0) (seq 0 (ndenom e))]
+  ++ map (fun c => etot (erc s c) :: map (ebal (erc s c)) (seq 0 (nacc e))
+                   ++ flat_map (fun o => map (eallow (erc s c) o) (seq 0 (nacc e))) (seq 0 (nacc e)))
+         (seq 0 (next s)).
 
 Fixpoint zl_eqb (l1 l2 : list Z) : bool :=
   match l1, l2 with
@@ -289,14 +454,26 @@ Definition apply_obs (sh : state) (o : obs) : state :=
   let su := fold_left (fun f p => upd f (fst p) (snd p)) (o_dsup o) (sup sh) in
   let er1 := fold_left (fun f p =>
                  let c := fst (fst p) in
-                 upd f c (mkLedger (upd (ebal (f c)) (snd (fst p)) (snd p)) (etot (f c))))
+                 upd f c (mkLedger (upd (ebal (f c)) (snd (fst p)) (snd p)) (etot (f c)) (eallow (f c))))
                (o_derc o) (erc sh) in
-  let er2 := fold_left (fun f p => upd f (fst p) (mkLedger (ebal (f (fst p))) (snd p))) (o_dtot o) er1 in
+  let er2 := fold_left (fun f p => upd f (fst p) (mkLedger (ebal (f (fst p))) (snd p) (eallow (f (fst p)))))
+               (o_dtot o) er1 in
+  let er3 := fold_left (fun f p =>
+                 let c := fst (fst p) in
+                 upd f c (mkLedger (ebal (f c)) (etot (f c))
+                                   (upd2 (eallow (f c)) (fst (snd (fst p))) (snd (snd (fst p))) (snd p))))
+               (o_dall o) er2 in
   let rg := fold_left (fun f p => upd f (fst p) (Some (snd p))) (o_dreg o) (reg sh) in
-  mkState b su er2 rg (o_next o) (enabled sh) (allowed sh).
+  match o_params o with
+  | Some (prs, al) => mkState b su er3 rg (o_next o) prs (memb al)
+  | None => mkState b su er3 rg (o_next o) (pairs sh) (allowed sh)
+  end.
 
 (* boolean form of the module invariant on the observed finite domain
    (evaluated on every model state during the correspondence run) *)
+Definition kind_eqb (a b : ckind) : bool :=
+  match a, b with Oz, Oz | Refund, Refund => true | _, _ => false end.
+
 Definition inv_b (e : env) (s : state) : bool :=
   let m := macc e in
   Nat.leb (npair e) (next s)
@@ -308,16 +485,22 @@ Definition inv_b (e : env) (s : state) : bool :=
   && forallb (fun d => forallb (fun d' =>
         Nat.eqb d d' || match reg s d, reg s d' with Some c, Some c' => negb (Nat.eqb c c') | _, _ => true end)
         (seq 0 (ndenom e))) (seq 0 (ndenom e))
-  && forallb (fun c => sup s (pair_denom e c) * kf e (pair_denom e c) <=? ebal (erc s c) m)
-             (seq 0 (npair e)).
+  && forallb (fun c =>
+        match kind e c with
+        | Oz => (sup s (pair_denom e c) * kf e (pair_denom e c) <=? ebal (erc s c) m)
+                && forallb (fun a => eallow (erc s c) m a =? 0) (seq 0 (nacc e))
+        | Refund => sup s (pair_denom e c) =? 0
+        end) (seq 0 (npair e))
+  && pairs_nodupb (pairs s)
+  && forallb (fun p => Nat.ltb (fst p) (npair e) && Nat.eqb (snd p) (pair_denom e (fst p))) (pairs s).
 
-(* first step index (from 0) at which model and implementation differ,
+(* first transaction index (from 0) at which model and implementation differ,
    or at which the model invariant evaluates to false *)
-Fixpoint first_mismatch (e : env) (s sh : state) (h : list (op * obs)) (i : nat) : option nat :=
+Fixpoint first_mismatch (e : env) (s sh : state) (h : list (list op * obs)) (i : nat) : option nat :=
   match h with
   | [] => None
-  | (o, ob) :: r =>
-      let res := step e s o in
+  | (tx, ob) :: r =>
+      let res := tx_step e s tx in
       let s' := match res with Ok s1 _ => s1 | _ => s end in
       let sh' := apply_obs sh ob in
       if rclass_eqb (class_of res) (o_class ob)
@@ -330,26 +513,37 @@ Fixpoint first_mismatch (e : env) (s sh : state) (h : list (op * obs)) (i : nat)
 (* list-based construction of environments and states from harness data *)
 Definition nthZ (l : list Z) (i : nat) : Z := nth i l 0.
 Definition nthN (l : list nat) (i : nat) : nat := nth i l O.
+Definition nthB (l : list bool) (i : nat) : bool := nth i l false.
 
+(* [ev]: the table contracts with the adversarial bytecode *)
+Definition mk_envx (na nd m z : nat) (blk : list bool) (pd : list nat) (ev : list bool) (bep : list bool) : env :=
+  {| nacc := na; ndenom := nd; macc := m; zacc := z; blocked := nthB blk;
+     npair := length pd; pair_denom := nthN pd;
+     pkind := fun c => if nthB ev c then Refund else Oz; is_bep3 := nthB bep |}.
+
+(* no zero address among the observed accounts (index na), all table contracts OpenZeppelin *)
 Definition mk_env (na nd m : nat) (blk : list bool) (pd : list nat) (bep : list bool) : env :=
-  {| nacc := na; ndenom := nd; macc := m; blocked := nthB blk;
-     npair := length pd; pair_denom := nthN pd; is_bep3 := nthB bep |}.
+  mk_envx na nd m na blk pd [] bep.
 
-(* contracts: one (totalSupply, balances) entry per deployed contract;
-   registry: (denom, contract) entries *)
-Definition mk_state (bals : list (list Z)) (sups : list Z) (ctrs : list (Z * list Z))
-                    (rg : list (nat * nat)) (en al : list bool) : state :=
+(* contracts: one (totalSupply, balances, allowance rows by owner) entry per deployed contract;
+   registry: (denom, contract) entries; enabled pairs; allowed denoms *)
+Definition mk_statex (bals : list (list Z)) (sups : list Z) (ctrs : list (Z * list Z * list (list Z)))
+                     (rg : list (nat * nat)) (prs : list (nat * nat)) (al : list nat) : state :=
   mkState (fun a d => nthZ (nth a bals []) d) (nthZ sups)
           (fun c => match nth_error ctrs c with
-                    | Some (t, b) => mkLedger (nthZ b) t
+                    | Some (t, b, aw) => mkLedger (nthZ b) t (fun o sp => nthZ (nth o aw []) sp)
                     | None => empty_ledger end)
           (fold_left (fun f p => upd f (fst p) (Some (snd p))) rg (fun _ => None))
-          (length ctrs) (nthB en) (nthB al).
+          (length ctrs) prs (memb al).
+
+Definition mk_state (bals : list (list Z)) (sups : list Z) (ctrs : list (Z * list Z))
+                    (rg : list (nat * nat)) (prs : list (nat * nat)) (al : list nat) : state :=
+  mk_statex bals sups (map (fun p => (fst p, snd p, [])) ctrs) rg prs al.
 
 Record history := mkHist {
   h_env : env;
   h_init : state;
-  h_steps : list (op * obs)
+  h_steps : list (list op * obs)
 }.
 
 Definition check_history (h : history) : option nat :=
